@@ -529,7 +529,11 @@ func (f *Free) snapshotCheck() {
 	if f.Hang != "" || f.failed {
 		return
 	}
-	si := go9p.VerifClntSnapshot(f.clnt)
+	si, corrupt := SafeSnapshot(f.clnt)
+	if corrupt {
+		f.viol("request-list-corrupt", "a completed (recycled) request is still linked in the client's outstanding-request list; recv's tag search dereferences its nil Tc")
+		return
+	}
 	ntag := 0 // Tag callers have returned their tag (TagFree) by now
 	if got := si.FreeTags + si.CachedReqs + len(si.Outstanding); got != 65535-ntag {
 		f.viol("tag-leak", fmt.Sprintf("after %d calls: free %d + cached %d + outstanding %d = %d tags, want %d",
